@@ -569,6 +569,7 @@ def check_C01(res):
     server_stage(res, "total", 10 if q else 400, ["C01"])
     server_stage(res, "mutate", 2 if q else 60, ["C01"])
     server_stage(res, "tsig", 1 if q else 20, ["C01"])
+    server_stage(res, "size", 1 if q else 20, ["C01"])      # additional-section processing beyond sixteen targets, roll-backs, exact fits
     res.assumptions += ["the response buffer has the documented minimum size for the transport",
                         "catalogs are built through the public zone API (including zones validation would reject)"]
     return "exhaustive 12-14 octet messages over a 12-symbol alphabet x all count combinations in {0,1}; every truncation of well-formed requests; count perturbations; misplaced/duplicated OPT and TSIG; random octets; ordinary and weird catalogs; keys 0-3; RRL on/off; a record is non-trivial when the request reaches the section scan"
@@ -632,8 +633,9 @@ def check_C10(res):
     return "requests signed by the harness's own RFC 8945 signer; variants: wrong secret, unknown key/algorithm, key-algorithm mismatch, MAC truncated to every length, time offsets around +-fudge, tampered covered octets, bad class/TTL, TSIG not last, other-data, error codes, maximal key/algorithm names; both MACs recomputed in TLC"
 
 
-OBSERVED_FIELDS = ["resp", "got", "msg", "res", "val", "nodes", "parsed", "items", "obs", "hook", "events", "iter", "steps", "ops",
-                   "avail", "after", "tc", "out", "rendered", "text_back", "cmp", "eq", "valid"]
+OBSERVED_FIELDS = ["resp", "got", "ops", "msg", "res", "val", "nodes", "parsed", "items", "obs", "hook", "events", "iter", "steps",
+                   "avail", "after", "tc", "out", "rendered", "text_back", "cmp", "eq", "valid", "back", "generic", "lower", "rcode", "opcode",
+                   "verdict", "comp", "skip", "unc", "kept", "eqs", "live", "sup", "type", "class", "qtype", "qclass"]
 
 
 def _corrupt(v):
@@ -661,10 +663,13 @@ def _corrupt(v):
     return v, False
 
 
-def negative_control(res, name, path, module, session_start, deque=False, env=None, max_lines=400):
+def negative_control(res, name, path, module, session_start, deque=False, env=None, max_lines=400, tries=8):
     """Binding demonstration: take a prefix of an accepted trace, change one observed field of one record,
-    and require TLC to reject it. A corrupted trace that is still accepted means the specification does not
-    constrain what the harness logs: that is a tool error (exit 2), not a property violation."""
+    and require TLC to reject it. Not every leaf of every record is constrained (the last octet of a message may lie
+    beyond what the recorded operations read; a response's SOA MINIMUM is not what a reload check looks at), so up to
+    `tries` different records / fields are corrupted in turn, one at a time; the control passes as soon as one
+    corruption is rejected. If every one of them is still accepted the specification does not constrain what the
+    harness logs: that is a tool error (exit 2), not a property violation."""
     lines = []
     with open(path) as f:
         for i, l in enumerate(f):
@@ -676,33 +681,45 @@ def negative_control(res, name, path, module, session_start, deque=False, env=No
         starts = [i for i, l in enumerate(lines) if _ev_is(l, session_start)]
         if len(starts) > 1 and len(lines) == max_lines:
             lines = lines[:starts[-1]]
-    target = None
+    candidates = []
     for i in range(len(lines) - 1, -1, -1):
-        rec = json.loads(lines[i])
         if session_start and _ev_is(lines[i], session_start):
             continue
+        rec = json.loads(lines[i])
         for fld in OBSERVED_FIELDS:
             if fld in rec and rec[fld] not in ([], "", None):
                 nv, ch = _corrupt(rec[fld])
                 if ch:
-                    rec[fld] = nv
-                    target = (i, fld)
-                    break
-        if target:
-            lines[i] = json.dumps(rec) + "\n"
+                    candidates.append((i, fld, nv))
+        if len(candidates) >= tries * 3:
             break
-    if not target:
+    if not candidates:
         raise ToolError(f"negative control for {name}: no observed field found to corrupt")
-    npath = path + ".neg"
-    with open(npath, "w") as f:
-        f.writelines(lines)
-    v = validate_trace(npath, module + ".tla", module + ".cfg", nshards=1, session_start=session_start, deque=deque, env=env)
-    os.remove(npath)
-    res.notes[name + "/negative-control"] = dict(corrupted_line=target[0] + 1, field=target[1], rejected_records=v["nbad"])
-    if v["nbad"] < 1:
-        raise ToolError(f"negative control for {name}: the trace with field '{target[1]}' of line {target[0] + 1} changed was still accepted - "
-                        f"the specification does not bind what is logged")
-    log(f"[neg] {name}: corrupting '{target[1]}' of line {target[0] + 1} is rejected ({v['nbad']} record(s))")
+    # spread the tries over different fields and records: first one candidate per field name, then the rest
+    seen, ordered = set(), []
+    for c in candidates:
+        if c[1] not in seen:
+            seen.add(c[1])
+            ordered.append(c)
+    ordered += [c for c in candidates if c not in ordered]
+    tried = []
+    for (i, fld, nv) in ordered[:tries]:
+        rec = json.loads(lines[i])
+        rec[fld] = nv
+        mod = list(lines)
+        mod[i] = json.dumps(rec) + "\n"
+        npath = path + ".neg"
+        with open(npath, "w") as f:
+            f.writelines(mod)
+        v = validate_trace(npath, module + ".tla", module + ".cfg", nshards=1, session_start=session_start, deque=deque, env=env)
+        os.remove(npath)
+        tried.append(dict(corrupted_line=i + 1, field=fld, rejected_records=v["nbad"]))
+        if v["nbad"] >= 1:
+            res.notes[name + "/negative-control"] = dict(corrupted_line=i + 1, field=fld, rejected_records=v["nbad"], attempts=tried)
+            log(f"[neg] {name}: corrupting '{fld}' of line {i + 1} is rejected ({v['nbad']} record(s)); {len(tried)} attempt(s)")
+            return
+    raise ToolError(f"negative control for {name}: {len(tried)} different corruptions of observed fields were all still accepted - "
+                    f"the specification does not bind what is logged: {tried}")
 
 
 def trace_stage(res, driver_args, module, name, tags, session_start=None, nshards=NSHARDS, deque=False, env=None, driver_tail=()):
